@@ -19,9 +19,9 @@
 //!
 //! The arguments of function-like macros (`format!`, `info!`, `vec!`, `assert!`, …) are
 //! parsed as a comma-separated expression list where that works, so an `.unwrap()` inside a
-//! log line is counted too.  Bodies of `macro_rules!` definitions are not (there is no
-//! expression to parse); the one such macro in scope is listed by hand in
-//! `Input/PanicReview.lean`.
+//! log line is counted too.  Bodies of `macro_rules!` definitions have no expression tree: they
+//! are scanned token by token for `.unwrap(`, `.expect(`, the panic-family macros and
+//! `process::exit` (rows `file::macro_rules!name`; none at present).
 //!
 //! Rows with the same (function, kind) – e.g. several `impl From<_> for T` blocks – are added up.
 //! The theorem over the table (`Props/C16Src.lean`): every row has an entry with the *same*
@@ -47,11 +47,12 @@ fn out_of_scope(rel: &str) -> bool {
         || base.starts_with("test")
 }
 
-/// `#[cfg(test)]`, `#[cfg(all(test, …))]`, `#[test]`, `#[cfg(nlnetlabs_krill_verif)]`,
+/// `#[cfg(test)]`, `#[cfg(all(test, …))]`, `#[test]`, `#[tokio::test]`, `#[cfg(nlnetlabs_krill_verif)]`,
 /// `#[cfg(feature = "hsm-tests-…")]`: not part of the daemon.
 fn skipped(attrs: &[syn::Attribute]) -> bool {
     attrs.iter().any(|a| {
-        if a.path().is_ident("test") {
+        // `#[test]`, `#[tokio::test]`
+        if a.path().segments.last().map(|s| s.ident == "test").unwrap_or(false) {
             return true;
         }
         if !a.path().is_ident("cfg") {
@@ -63,8 +64,33 @@ fn skipped(attrs: &[syn::Attribute]) -> bool {
             || c.contains(",test,")
             || c.contains(",test)")
             || (c.contains("nlnetlabs_krill_verif") && !c.contains("not(nlnetlabs_krill_verif"))
-            || (c.contains("hsm-tests-") && !c.contains("not("))
+            || strip_not(&c).contains("hsm-tests-")
     })
+}
+
+/// The compact cfg text with every `not(…)` group removed (what is left is required positively).
+fn strip_not(c: &str) -> String {
+    let mut out = String::new();
+    let mut rest = c;
+    while let Some(i) = rest.find("not(") {
+        out.push_str(&rest[..i]);
+        let mut depth = 0usize;
+        let mut end = rest.len();
+        for (j, ch) in rest[i..].char_indices() {
+            if ch == '(' {
+                depth += 1;
+            } else if ch == ')' {
+                depth -= 1;
+                if depth == 0 {
+                    end = i + j + 1;
+                    break;
+                }
+            }
+        }
+        rest = &rest[end..];
+    }
+    out.push_str(rest);
+    out
 }
 
 fn expr_attrs(e: &syn::Expr) -> &[syn::Attribute] {
@@ -112,6 +138,35 @@ impl V {
         };
         self.locs.push((span.start().line, kind, name.clone()));
         *self.counts.entry((name, kind)).or_insert(0) += 1;
+    }
+
+    fn scan_tokens(&mut self, ts: proc_macro2::TokenStream) {
+        use proc_macro2::TokenTree as T;
+        let v: Vec<T> = ts.into_iter().collect();
+        for (i, t) in v.iter().enumerate() {
+            match t {
+                T::Group(g) => self.scan_tokens(g.stream()),
+                T::Ident(id) => {
+                    let n = id.to_string();
+                    let next_bang = matches!(v.get(i + 1), Some(T::Punct(p)) if p.as_char() == '!');
+                    let next_call = matches!(v.get(i + 1), Some(T::Group(g)) if g.delimiter() == proc_macro2::Delimiter::Parenthesis);
+                    let prev_dot = i > 0 && matches!(&v[i - 1], T::Punct(p) if p.as_char() == '.');
+                    let prev_process = i > 2 && matches!(&v[i - 3], T::Ident(x) if x == "process");
+                    if next_bang
+                        && matches!(n.as_str(), "panic" | "unreachable" | "unimplemented" | "todo" | "assert" | "assert_eq" | "assert_ne")
+                    {
+                        self.hit("panic", id.span());
+                    } else if prev_dot && next_call && (n == "unwrap" || n == "unwrap_err") {
+                        self.hit("unwrap", id.span());
+                    } else if prev_dot && next_call && (n == "expect" || n == "expect_err") {
+                        self.hit("expect", id.span());
+                    } else if next_call && prev_process && (n == "exit" || n == "abort") {
+                        self.hit("exit", id.span());
+                    }
+                }
+                _ => {}
+            }
+        }
     }
 
     fn mac(&mut self, m: &syn::Macro) {
@@ -162,8 +217,17 @@ impl<'ast> Visit<'ast> for V {
         if skipped(attrs) {
             return;
         }
-        if let syn::Item::Macro(_) = i {
-            // `macro_rules!` definitions and item-position macro calls: no expressions to walk
+        if let syn::Item::Macro(m) = i {
+            // `macro_rules!` definitions: there is no expression tree, the body is scanned token
+            // by token for `.unwrap(`, `.expect(`, the panic-family macros and `process::exit`
+            // (rows `file::macro_rules!name`); index / division / shift cannot be told from
+            // patterns at token level and are not counted there.
+            if m.mac.path.is_ident("macro_rules") {
+                let name = m.ident.as_ref().map(|i| i.to_string()).unwrap_or_default();
+                self.scope.push(format!("macro_rules!{name}"));
+                self.scan_tokens(m.mac.tokens.clone());
+                self.scope.pop();
+            }
             return;
         }
         syn::visit::visit_item(self, i);
